@@ -44,6 +44,8 @@ FINGERPRINT = [
     "canopen.profiles.p402:BaseNode402.state",
     "canopen.profiles.p402:BaseNode402._next_state",
     "canopen.profiles.p402:BaseNode402._change_state",
+    "canopen.profiles.p402:BaseNode402._init_tpdo_values",
+    "canopen.profiles.p402:BaseNode402._init_rpdo_pointers",
     "canopen.profiles.p402:BaseNode402.statusword",
     "canopen.profiles.p402:BaseNode402.check_statusword",
     "canopen.profiles.p402:BaseNode402.controlword",
@@ -312,6 +314,17 @@ def make_node(drive, transport, F=8, S=4, M=5):
         tp.wait_for_reception = wait
         net.tpdo_mode_read = False
         net.push_tpdo()                                # the TPDO received before the assignment
+    elif transport == "d":
+        # the same objects are mapped in PDOs that are switched off: the profile must not use them (SDO fallback)
+        rp, tp = node.rpdo[1], node.tpdo[1]
+        rp.cob_id, tp.cob_id = 0x200 + nid, 0x180 + nid
+        rp.enabled = tp.enabled = False
+        rp.trans_type, tp.trans_type = 255, 1
+        rp.add_variable(0x6040)
+        rp.add_variable(0x6060)
+        tp.add_variable(0x6041)
+        tp.add_variable(0x6061)
+        node.setup_pdos(upload=False)
     elif transport != "s":
         raise ValueError("transport")
     return node, net, clock
@@ -607,6 +620,12 @@ def gen_ops(tier, rng):
                                 yield goto(start, rst, target, tr, auto12, 6, rng.getrandbits(16), F, S, [i, j])
                         # the real ratio of the two time-outs, short, drive that never fires on its own
                         yield goto(start, rst, target, tr, auto12, NEVER, 0, 8, 4, [])
+    # -- the objects mapped in switched-off PDOs: decoding and every pair once (behaves as SDO transport)
+    for n in list(range(0, 65536, 257 if quick else 17)) + [0x0650, 0x0631, 0x0633, 0x0637, 0x0617, 0x061F, 0x0618]:
+        yield f"sw {n} d"
+    for start in range(8):
+        for target in range(8):
+            yield goto(start, rng.getrandbits(1), target, "d", 0, rng.choice((0, 1, 3)), rng.getrandbits(16), F, S, [])
     # -- seeded: everything random, including tight time-outs
     for _ in range(3000 if quick else 30000):
         k = rng.choice((0, 1, 2, 3))
